@@ -13,7 +13,8 @@ Step level, for every rest-of-chain evaluator:
   suppressible structural error (`strict_*`), silent or not as `verbose` says; out-of-range subscripts:
   `C14.strict_oob`;
 * below `.**` the flag is set for the following steps, so member accessors skip the nodes they do
-  not apply to instead of failing (`below_any_skips`).
+  not apply to instead of failing (`below_any_skips`); since repairs D31/D32 so do subscripts and
+  `.size()` (`below_any_skips_subscript`, `below_any_skips_size`).
 
 The unbounded statement "a lax accessor path never returns an error, whatever the document" is
 `lax_accessors_total` in `Props/C07b.lean`.
@@ -102,6 +103,27 @@ theorem below_any_skips (c : Ctx) (item : ItemK) (any : AnyK) (s : St) (n : Node
       ⟨{ s with ignoreSE := true }, f, .notFound, none⟩ :=
   lax_key_wrong_kind c item any _ n k nx v f u rfl hv
 
+/-- strict mode, structural errors not ignored: a subscript on a non-array is the structural error -/
+theorem strict_subscript_non_array (c : Ctx) (item : ItemK) (s : St) (subs : List Node) (nx : Option Node)
+    (v : Item) (f : Found) (hstrict : c.lax = false) (hig : s.ignoreSE = false) (hv : v.isArr = false) :
+    execArrayIndex c item s subs nx v f = returnVerboseError s f := by
+  have : arrayOf c v = none := by cases v <;> simp_all [arrayOf, Item.isArr]
+  simp [execArrayIndex, this, structural, hig]
+
+/-- below `.**` in strict mode (repair D31): a subscript on a non-array is skipped like a member
+    accessor — nothing is selected, no error, state and found items unchanged -/
+theorem below_any_skips_subscript (c : Ctx) (item : ItemK) (s : St) (subs : List Node) (nx : Option Node)
+    (v : Item) (f : Found) (hstrict : c.lax = false) (hig : s.ignoreSE = true) (hv : v.isArr = false) :
+    execArrayIndex c item s subs nx v f = ⟨s, f, .notFound, none⟩ := by
+  have : arrayOf c v = none := by cases v <;> simp_all [arrayOf, Item.isArr]
+  simp [execArrayIndex, this, structural, hig]
+
+/-- below `.**` in strict mode (repair D32): `.size()` of a non-array is skipped (it used to yield 1) -/
+theorem below_any_skips_size (c : Ctx) (item : ItemK) (s : St) (nx : Option Node) (v : Item) (f : Found)
+    (hstrict : c.lax = false) (hig : s.ignoreSE = true) (hv : v.isArr = false) :
+    execMethodSize c item s nx v f = ⟨s, f, .notFound, none⟩ := by
+  cases v <;> simp_all [execMethodSize, Item.isArr, structural]
+
 /-- non-vacuity / end to end -/
 example : run .query 20 ⟨.const .root (some (.key ['a'] (some (.key ['b'] none)))), true, false⟩
     (.obj [(['a'], .int 1)]) {} = .items [] := rfl
@@ -109,6 +131,14 @@ example : run .query 20 ⟨.const .root (some (.key ['a'] (some (.key ['b'] none
     (.obj [(['a'], .int 1)]) {} = .error .verbose := rfl
 example : run .query 20 ⟨.const .root (some (.any 0 maxU32 (some (.key ['b'] none)))), false, false⟩
     (.obj [(['a'], .obj [(['b'], .int 2)])]) {} = .items [.int 2] := rfl
+/-- `strict $.**[0]` and `strict $.**.size()` on `{"a":[1]}`: the object and the number are skipped -/
+example : run .query 20 ⟨.const .root (some (.any 0 maxU32 (some (.arrayIndex [.binary .subscript (some (.integer 0 none)) none none] none)))), false, false⟩
+    (.obj [(['a'], .arr [.int 1])]) {} = .items [.int 1] := rfl
+example : run .query 20 ⟨.const .root (some (.any 0 maxU32 (some (.method .size none)))), false, false⟩
+    (.obj [(['a'], .arr [.int 1])]) {} = .items [.int 1] := rfl
+/-- not below `.**`, strict mode still reports the mismatch -/
+example : run .query 20 ⟨.const .root (some (.arrayIndex [.binary .subscript (some (.integer 0 none)) none none] none)), false, false⟩
+    (.obj [(['a'], .arr [.int 1])]) {} = .error .verbose := rfl
 
 end C07
 end Sqljson
